@@ -11,9 +11,9 @@ from harness.drivers import cli
 META = {
     "id": "C49",
     "level": "model_checking",
-    "technique": "TLA+ spec Cli (file-system state of a working directory x the five command forms of `eko runcards example` / `eko run`, expected exit status and files; design switches DestMustExist, ExampleNumpy transcribed from ekobox/cli); TLC enumerates 14 initial states x all command sequences of length <= 2; sequences are executed by subprocess (the `eko` console script) in fresh working directories, the directory is projected before and after every command and every observed step is judged by TLC (CliTrace)",
-    "text": "B1: TLC checks on the intended design that every `runcards example` succeeds, creates its destination and leaves valid cards, and that every `run` on valid cards with a free output produces the archive (all 1022 states of 14 initial states x sequences of <= 2 of 8 commands); each switch transcribed from the code must yield a counterexample. B2/B3: a set of sequences covering every (command, destination/cards/output class) transition of the state graph (quick) plus a seeded sample of all sequences (thorough) is run through the real console entry point; generated cards are loaded back and compared field-wise with the objects the command builds; archives written by `eko run` (all three argument forms) are compared bitwise with eko.solve on the same cards in-process; TLC evaluates C49_Gen/C49_Run on every observed step.",
-    "note": "`run` is exercised on tiny valid cards (2-3 point grid, LO, one target near the initial scale), substituted after a successful generation because solving the example cards takes minutes interpreted. Refusals of unrunnable inputs (missing cards, existing output) are checked as conformance only. Exit status is classed 0 / non-zero.",
+    "technique": "TLA+ spec Cli (file-system state of a working directory x the command forms of `eko runcards example` / `eko run` and, beyond the statement, the read-only `eko inspect mu2grid|cards`; expected exit status and files; design switches DestMustExist, ExampleNumpy transcribed from ekobox/cli); TLC enumerates 14 initial states x all command sequences of length <= 2; sequences are executed by subprocess (the `eko` console script) in fresh working directories, the directory is projected before and after every command and every observed step is judged by TLC (CliTrace)",
+    "text": "B1: TLC checks on the intended design that every `runcards example` succeeds, creates its destination and leaves valid cards, and that every `run` on valid cards with a free output produces the archive (all 2954 states of 14 initial states x sequences of <= 2 of 14 commands); each switch transcribed from the code must yield a counterexample. B2/B3: a set of sequences covering every (command, destination/cards/output class) transition of the state graph (quick) plus a seeded sample of all sequences (thorough) is run through the real console entry point; generated cards are loaded back and compared field-wise with the objects the command builds; archives written by `eko run` (all three argument forms) are compared bitwise with eko.solve on the same cards in-process; TLC evaluates C49_Gen/C49_Run on every observed step.",
+    "note": "`eko inspect` (outside the statement of C49) is modelled and validated at conformance grade: it succeeds exactly on an archive, prints the JSON of what the library reads from it and leaves the directory unchanged; deviations are diagnostics. `run` is exercised on tiny valid cards (2-3 point grid, LO, one target near the initial scale), substituted after a successful generation because solving the example cards takes minutes interpreted. Refusals of unrunnable inputs (missing cards, existing output) are checked as conformance only. Exit status is classed 0 / non-zero.",
     "design_ref": "4.10, 5 C49, 8",
     "rule": "instance = (initial file-system state, command sequence of length <= 2); distinct by that pair; non-trivial = at least one command whose outcome depends on the file system (all of them)",
 }
@@ -34,6 +34,8 @@ def _class(step):
     c = step["cmd"]
     if c["op"] == "gen":
         return ("gen", c["l"], step["pre"]["dir"][c["l"]], step["pre"]["cards"][c["l"]])
+    if c["op"] in cli.INSPECTS:
+        return (c["op"], step["pre"]["out"][c["l"]])
     tgt = cli.target(c)
     oc = step["pre"]["cards"][cli.other(c["l"])] if c["op"] == "run2x" else "-"
     return (c["op"], step["pre"]["dir"][c["l"]], step["pre"]["cards"][c["l"]], oc, step["pre"]["out"][tgt] != "none")
@@ -129,7 +131,7 @@ def run(chk):
 
     # ---- binding demonstration ------------------------------------------------------------
     ok = [x for x in range(len(recs)) if all(x not in v for v in by.values())]
-    runs = [x for x in ok if recs[x]["cmd"]["op"] != "gen" and recs[x]["exit"] == "ok"]
+    runs = [x for x in ok if recs[x]["cmd"]["op"].startswith("run") and recs[x]["exit"] == "ok"]
     if runs:
         good = recs[runs[0]]
     else:   # no run succeeded: corrupt a synthetic clean step
